@@ -262,6 +262,8 @@ pub struct Obl {
     pub sym: Option<Box<dyn Fn(&[SymM]) -> Res<SymB>>>,
     /// scalar code path (Mask = bool), one run per decision vector
     pub symf: Option<Box<dyn Fn(&[SymF]) -> Res<SymB>>>,
+    /// C17: the same pure function on both symbolic types (outputs compared lane-path against scalar-path), tolerance
+    pub mf: Option<(Box<dyn Fn(&[SymM]) -> Vec<(String, SymM)>>, Box<dyn Fn(&[SymF]) -> Vec<(String, SymF)>>, f64)>,
     pub f64: Box<dyn Fn(&[f64]) -> Res<bool>>,
     pub f32: Box<dyn Fn(&[f32]) -> Res<bool>>,
 }
@@ -300,7 +302,7 @@ macro_rules! obl {
         $list.push($crate::obl::Obl {
             name: $name.to_string(), prop: $prop, tier: $tier, desc: $desc.to_string(),
             fns: vec![$($f.to_string()),*], vars: vec![$($var),*],
-            sym: Some(Box::new(s)), symf: None, f64: d, f32: f,
+            sym: Some(Box::new(s)), symf: None, mf: None, f64: d, f32: f,
         });
     }};
 }
@@ -317,7 +319,50 @@ macro_rules! oblf {
         $list.push($crate::obl::Obl {
             name: $name.to_string(), prop: $prop, tier: $tier, desc: $desc.to_string(),
             fns: vec![$($f.to_string()),*], vars: vec![$($var),*],
-            sym: None, symf: Some(Box::new(s)), f64: d, f32: f,
+            sym: None, symf: Some(Box::new(s)), mf: None, f64: d, f32: f,
+        });
+    }};
+}
+
+/// oblmf!(list; name, prop, tier, desc, [fns], [vars], tol; |v| { body using T, v: &[T] -> Vec<(&str, T)> });
+/// the body is a pure function of the inputs; it is executed with SymM (what every SIMD lane computes: all branches
+/// evaluated and blended by masks) and with SymF (what f32/f64 compute, one run per decision vector) and the outputs are
+/// compared; natively it runs with f64 / f32 (scalar path) and the outputs are reported for the replay.
+#[macro_export]
+macro_rules! oblmf {
+    ($list:expr; $name:expr, $prop:expr, $tier:expr, $desc:expr, [$($f:expr),* $(,)?], [$($var:expr),* $(,)?], $tol:expr; |$v:ident| $body:block) => {{
+        #[allow(unused)]
+        let m = move |$v: &[$crate::sym::SymM]| -> Vec<(String, $crate::sym::SymM)> {
+            type T = $crate::sym::SymM;
+            let o: Vec<(&str, T)> = $body;
+            o.into_iter().map(|(n, x)| (n.to_string(), x)).collect()
+        };
+        #[allow(unused)]
+        let s = move |$v: &[$crate::sym::SymF]| -> Vec<(String, $crate::sym::SymF)> {
+            type T = $crate::sym::SymF;
+            let o: Vec<(&str, T)> = $body;
+            o.into_iter().map(|(n, x)| (n.to_string(), x)).collect()
+        };
+        #[allow(unused)]
+        let d = move |$v: &[f64]| -> $crate::obl::Res<bool> {
+            type T = f64;
+            let o: Vec<(&str, T)> = $body;
+            let mut r = $crate::obl::Res::<bool>::new();
+            for (n, x) in o { r.show(n, x); }
+            r
+        };
+        #[allow(unused)]
+        let f = move |$v: &[f32]| -> $crate::obl::Res<bool> {
+            type T = f32;
+            let o: Vec<(&str, T)> = $body;
+            let mut r = $crate::obl::Res::<bool>::new();
+            for (n, x) in o { r.show(n, x); }
+            r
+        };
+        $list.push($crate::obl::Obl {
+            name: $name.to_string(), prop: $prop, tier: $tier, desc: $desc.to_string(),
+            fns: vec![$($f.to_string()),*], vars: vec![$($var),*],
+            sym: None, symf: None, mf: Some((Box::new(m), Box::new(s), $tol)), f64: Box::new(d), f32: Box::new(f),
         });
     }};
 }
